@@ -1998,7 +1998,6 @@ func snapshotFields(p *eng.Prog) (msgs, retain, count, holder *types.Var) {
 	return
 }
 
-
 // ResolveCallee: a handler taken from a package-level table keyed by the session state
 // (stateHandlers[s.state]) is the table's entry for the current state.
 func (m *pop3Model) ResolveCallee(call *ssa.Call, c eng.TSConfig) *ssa.Function {
@@ -2009,7 +2008,6 @@ func (m *pop3Model) ResolveCallee(call *ssa.Call, c eng.TSConfig) *ssa.Function 
 		return 0, false
 	})
 }
-
 
 // oneBasedIdx wraps a 1-based message number n that stands for the index n-1 (the argument of a
 // 1-based accessor), so that it can be compared with explicit n-1 index expressions.
@@ -2063,7 +2061,6 @@ func (m *pop3Model) accessor(g *ssa.Function) *pop3Accessor {
 	}
 	return nil
 }
-
 
 // sendLike: g writes a reply: the reply writer itself, or a printf-style wrapper of the package
 // around it (sendf(format, args…) = send(fmt.Sprintf(format, args…))).
